@@ -2,8 +2,8 @@
 //verif:use store,kv,corehelp,purgehelp
 //verif:stub openKV vOpenKV
 //verif:assume purge drivers end to end (PurgeBuildReverseIndex, PurgeDeleteUnused with scanContext, repoKeysScanner, bundleKeys, uploader, chunkUploader, copyIndexChunks, loadChunk, scanBlob, checkAndDeleteKey; errgroup from source) over in-memory stores; openKV (which opens the on-disk pebble/badger store) is routed to the in-memory KV model in symbolic runs, the native replay runs the real pebble store; progress tickers never fire; blob update times come from the store clock
-//verif:assume world: repository r with two committed bundles sharing a file (or the second bundle in a second repository r2 of the same context, so that there are more repositories than scanner slots at parallelism 1) (uploaded through the real code, real cafs), the blobs of a third bundle that was deleted (old, unreferenced), and a bundle uploaded after the index was built; index chunk size 1..3 keys (thorough also 1000), purge parallelism 1..2
-//verif:cover VerifC14PurgeE2E several-chunks orphans-deleted two-repositories
+//verif:assume world: repository r with two committed bundles sharing a file (or the second bundle in a second repository r2 of the same context, so that there are more repositories than scanner slots at parallelism 1, or in a repository of an extra context sharing the blob store and named to purge) (uploaded through the real code, real cafs), the blobs of a third bundle that was deleted (old, unreferenced), and a bundle uploaded after the index was built; index chunk size 1..3 keys (thorough also 1000), purge parallelism 1..2
+//verif:cover VerifC14PurgeE2E several-chunks orphans-deleted two-repositories extra-context
 package core
 
 import (
@@ -25,7 +25,7 @@ func VerifC14PurgeE2E() {
 	}
 	par := vChoose("parallel", 2) + 1
 	vNextSecond()
-	idx, err := PurgeBuildReverseIndex(stores, WithPurgeLogger(zap.NewNop()), WithPurgeLocalStore(vKVDir("kv-build")), WithPurgeIndexChunkSize(chunk), WithPurgeParallel(par))
+	idx, err := PurgeBuildReverseIndex(stores, append([]PurgeOption{WithPurgeLogger(zap.NewNop()), WithPurgeLocalStore(vKVDir("kv-build")), WithPurgeIndexChunkSize(chunk), WithPurgeParallel(par)}, w.extraOpts()...)...)
 	vAssert(err == nil, "index-build-succeeds")
 	got := w.indexed()
 	var want []string
@@ -54,7 +54,7 @@ func VerifC14PurgeE2E() {
 		}
 	}
 	vNextSecond()
-	res, err := PurgeDeleteUnused(stores, WithPurgeLogger(zap.NewNop()), WithPurgeLocalStore(vKVDir("kv-delete")), WithPurgeParallel(par))
+	res, err := PurgeDeleteUnused(stores, append([]PurgeOption{WithPurgeLogger(zap.NewNop()), WithPurgeLocalStore(vKVDir("kv-delete")), WithPurgeParallel(par)}, w.extraOpts()...)...)
 	vAssert(err == nil, "delete-unused-succeeds")
 	after := w.blobKeys()
 	for k := range w.referenced {
